@@ -307,7 +307,14 @@ def render_level(rng, c, stats):
         k = 1 if not multiple else pick(rng, [max(lo, 1), max(lo, 1) + 1, hi if hi is not None else 3])
         if hi is not None:
             k = min(k, hi)
-        pos_runs.append((a, [value(a) for _ in range(k)]))
+        run = [value(a) for _ in range(k)]
+        # a multi-valued positional that has STARTED collecting swallows a following word that spells a subcommand name
+        # (the documented greedy grammar; seeded change seed3/C02-1 let the name steal the value): such a word may be any
+        # value of the run but the first
+        if multiple and len(run) >= 2 and sub_names and rng.random() < 0.3 and "subcommand_precedence_over_arg" not in c["settings"]:
+            run[rng.randrange(1, len(run))] = pick(rng, sorted(sub_names))
+            stats["positional value spelled like a subcommand name"] += 1
+        pos_runs.append((a, run))
         if multiple or a.get("action") == "append":
             pos_open = True      # a positional collecting values (even a full one) swallows a following subcommand name
     # interleave option groups between positional runs; an "open" option group must not be followed by a
